@@ -109,7 +109,13 @@ def run(ctx):
         "Healthy + Done, return nil) while the services below keep running, the supervisor context being cancelled after settling, a few "
         "ms after the completed node returned, with a child in its back-off or a child subtree still exiting (driver stats "
         "trace_stop_with_completed_root / trace_stop_live_below_completed); `service-live-after-stop` = an instance that entered has "
-        "not returned when the trace ends, more than (longest exit latency + 1 s) after the cancellation. evaluations = operations/events replayed; distinct_nontrivial = cases "
+        "not returned when the trace ends, more than (longest exit latency + 1 s) after the cancellation. The `rejected-*` family (14 fixed + "
+        "10 PRNG-shaped scenarios per seed): a service - the root, an inner node, a member of a group of two, a node at depth 2 - makes a "
+        "RunGroup / Run call the supervisor has to refuse as a whole (a name already running under it and / or a name without any "
+        "[a-z0-9_] character, among 10-24 fresh valid names; first, middle or last call of its set-up) in its first two or three "
+        "incarnations and returns that error, or ignores it and fails later (error / plain return / panic / its parent fails); the "
+        "refused call must leave nothing behind that keeps the caller or an ancestor from being started again (`not-restarted`, settle "
+        "bound 4 s where every back-off is <= 72 ms). evaluations = operations/events replayed; distinct_nontrivial = cases "
         "(sequences / traces) on which model and implementation agreed throughout and the Spec held.")
     ctx.cov["trusted_base"] += [
         "harness/supervisor/*_verif_test.go (generators, canonical dump, event log) and Whv/Driver/Supervisor.lean (comparison, acceptance search)",
